@@ -147,7 +147,9 @@ c.raises("NotImplementedError", when="signed and action.value == 'append'", labe
 c = Contract(FS, "Signer.sign_envelope", ["C04", "C09"])
 for g, t in ENV_GHOSTS:
     c.ghost(g, t)
-c.param("self", Obj(FS, "Signer"))
+# `self` may have served earlier calls: every attribute the class assigns holds an ARBITRARY value on entry (history havoc),
+# so state that leaks from one call into the next (a flag that is not reset, a cached key) fails the postconditions
+c.param("self", Obj(FS, "Signer", _skip_signing=Bool(), _key_name=Str(), _context=Str(), _key_id=Int()))
 c.param("input_envelope", _envelope(False))
 c.param("key_name", Str())
 c.param("key_id", KEY_ID)
